@@ -123,9 +123,9 @@ def readNCount8 (b : Bytes) (hbSize : Nat) (maxSV : Nat) : R NCount := Id.run do
       let (ip', bc', bs') := refill b iend s.ip bitCount
       s := { s with ip := ip', bitCount := bc', bitStream := bs', remaining := remaining, norm := norm, charnum := charnum,
                     previous0 := count == 0, nbBits := nbBits, threshold := threshold }
-  if s.remaining != 1 then return .error .corruption
-  if s.charnum > maxSV1 then return .error .corruption      -- maxSymbolValue_tooSmall
-  if s.bitCount > 32 then return .error .corruption
+  if s.remaining != 1 then return .error (.corruptionAt "FSE:126")
+  if s.charnum > maxSV1 then return .error (.corruptionAt "FSE:127")      -- maxSymbolValue_tooSmall
+  if s.bitCount > 32 then return .error (.corruptionAt "FSE:128")
   let used := s.ip + ((s.bitCount.toNat + 7) >>> 3)
   return .ok { norm := s.norm.extract 0 s.charnum, tableLog := tl, used := used }
 
@@ -135,7 +135,7 @@ def readNCount (src : Bytes) (start hbSize : Nat) (maxSV : Nat) : R NCount :=
     let buf := (src.extract start (start + hbSize)) ++ ByteArray.mk (Array.replicate (8 - hbSize) 0)
     match readNCount8 buf 8 maxSV with
     | .error e => .error e
-    | .ok r => if r.used > hbSize then .error .corruption else .ok r
+    | .ok r => if r.used > hbSize then .error (.corruptionAt "FSE:138") else .ok r
   else
     readNCount8 (src.extract start (start + hbSize)) hbSize maxSV
 
@@ -192,8 +192,8 @@ def decompressWeights (src : Bytes) (start len : Nat) (maxOut : Nat) : R (Array 
   let cells := buildCells nc.norm nc.tableLog
   let r0 ← match BitR.init src (start + nc.used) (len - nc.used) with
     | .ok r => pure r
-    | .error _ => throw .corruption
-  if nc.used > len then throw .srcSizeWrong
+    | .error _ => throw (.corruptionAt "FSE:195")
+  if nc.used > len then throw (.srcSizeWrongAt "FSE:196")
   let (s1, r1) := r0.read nc.tableLog
   let (s2, r2) := r1.read nc.tableLog
   let mut st1 := s1
